@@ -197,7 +197,9 @@ func runEngineCase(r *runner, flows []Flow, txns []Txn) {
 			}
 		}
 		sort.Ints(inv)
-		ob := Obs{Txn: t, Selected: sel}
+		nact := len(acts.Request.Actions) + len(acts.Response.Actions)
+		acted := nact != 0 || len(events) != 0 || len(inv) != 0
+		ob := Obs{Txn: t, Selected: sel, Acted: &acted}
 		k.Obs = append(k.Obs, ob)
 		o.MonitorChecked(2)
 		mini := Case{Flows: flows, AddErr: k.AddErr, Obs: []Obs{ob}, Engine: true}
@@ -211,8 +213,7 @@ func runEngineCase(r *runner, flows []Flow, txns []Txn) {
 				Observed: fmt.Sprintf("invocation deltas %v", inv), Case: mini})
 		}
 		if len(sel) == 0 {
-			nact := len(acts.Request.Actions) + len(acts.Response.Actions)
-			if nact != 0 || len(events) != 0 || len(inv) != 0 {
+			if acted {
 				o.Hit(c.Hit{Suite: suite, Signature: "no-match-action:ExecuteFlow",
 					Demanded: "a transaction for which no flow is selected is passed through with no action at all",
 					Observed: fmt.Sprintf("%d actions, %d processor runs, invocations %v", nact, len(events), inv), Case: mini})
@@ -275,6 +276,14 @@ func engineSample(r *runner) {
 		if i < 3 {
 			urls = []string{"a/b", "a/b/c"}
 		}
-		runEngineCase(r, fs, txnsFor(urls, true))
+		// a response-typed stream without response object never ENTERS ExecuteFlow
+		// (it only arises inside executeReq, property C04): tree-level cases only
+		txns := []Txn{}
+		for _, t := range txnsFor(urls, true) {
+			if !t.NoResp {
+				txns = append(txns, t)
+			}
+		}
+		runEngineCase(r, fs, txns)
 	}
 }
